@@ -100,6 +100,13 @@ func (s *S) Run(c *scen.Ctx) {
 	for i := []int{0, 0, 1, 2}[simrt.Draw(4, "c09.proxies")]; i > 0; i-- {
 		s.prxs = append(s.prxs, world.Proxy(comm, "App.Srv.Obj@tcp -h 10.0.0.9 -p 1000 -t 3000"))
 	}
+	if simrt.Draw(4, "c09.pushcb") == 3 {
+		// a push client: the proxy has a push callback (the framework then keeps the connection alive)
+		for _, p := range s.prxs {
+			p.SetPushCallback(func([]byte) {})
+		}
+		c.Describe("push_callback", true)
+	}
 	c.Describe("proxy_objects", len(s.prxs))
 	s.before = s.state()
 	s.ncallers = 1 + simrt.Draw(6, "c09.callers")
@@ -415,6 +422,10 @@ func (s *S) Check(c *scen.Ctx, res *simrt.Result) {
 		}
 	}
 	if s.finished {
+		if len(res.LockWaitEnd) > 0 {
+			c.Fail("C09", "goroutine-leak", "blocked-forever", "after all calls had returned and the world had been idle for %v, %d goroutine(s) started by the calls were still blocked on a lock or a sync.Once that nobody will release: %v",
+				s.readTO+ms(s.proxyTO)+ms(2200), len(res.LockWaitEnd), res.LockWaitEnd)
+		}
 		if s.after.QueueLen != s.before.QueueLen || s.after.Pending != s.before.Pending || s.after.InvokeNum != s.before.InvokeNum {
 			c.Fail("C09", "leftover", "proxy-state", "after every call returned and the world was idle for %v: queueLen %d (was %d), pending replies %d (was %d), invokeNum %d (was %d)",
 				s.readTO+ms(s.proxyTO)+ms(2200), s.after.QueueLen, s.before.QueueLen, s.after.Pending, s.before.Pending, s.after.InvokeNum, s.before.InvokeNum)
